@@ -101,3 +101,39 @@ func ZZ_C15_SplatColourByte() {
 	zz.Assert(b-ideal <= 1, "colour byte within one step of the clamped ideal (too large)")
 	zz.Assert(ideal-b <= 1, "colour byte within one step of the clamped ideal (too small)")
 }
+
+// de-quantisation on read: every stored byte value (exhaustively, by forking over the 256 values of one
+// symbolically chosen colour/opacity/rotation byte) decodes to the value the record layout defines.
+func ZZ_C15_SplatReadDequant() {
+	rec := make([]byte, 32)
+	one := math.Float32bits(1) // scale = exp(0): log(1) = 0
+	for k := 0; k < 3; k++ {
+		rec[12+4*k], rec[13+4*k], rec[14+4*k], rec[15+4*k] = byte(one), byte(one>>8), byte(one>>16), byte(one>>24)
+	}
+	for k := 24; k < 32; k++ {
+		rec[k] = 128
+	}
+	which := 24 + zz.Choose("byteIndex", 8)
+	b := byte(zz.Choose("byteValue", 256))
+	rec[which] = b
+	zz.Reach("input")
+	back, err := splat.Read(&zz.Buf{B: rec, Limit: -1})
+	zz.Assert(err == nil, "splat.Read failed on one complete record")
+	if err != nil || back.AttributeLength() != 1 {
+		return
+	}
+	same := func(got, want float64, label string) {
+		zz.Assert(math.Float64bits(got) == math.Float64bits(want), label)
+	}
+	col := back.Float3Attribute(modeling.FDCAttribute).At(0)
+	for k := 0; k < 3; k++ {
+		same(col.Component(k), ((float64(rec[24+k])/255.)-0.5)/splat.SH_C0, "colour byte de-quantises to ((b/255)-0.5)/SH_C0")
+	}
+	a := float64(rec[27]) / 255.
+	same(back.Float1Attribute(modeling.OpacityAttribute).At(0), -math.Log((1/a)-1), "opacity byte de-quantises to the inverse sigmoid of b/255")
+	rot := back.Float4Attribute(modeling.RotationAttribute).At(0)
+	for k := 0; k < 4; k++ {
+		same(rot.Component(k), (float64(rec[28+k])-128)/128, "rotation byte de-quantises to (b-128)/128")
+	}
+	zz.Reach("read")
+}
